@@ -274,7 +274,8 @@ class Evaluator:
         if not body or not isinstance(body[-1], ast.Return) or body[-1].value is None:
             return None
         for st in body[:-1]:
-            if not (isinstance(st, ast.Assign) and len(st.targets) == 1 and isinstance(st.targets[0], ast.Name)) and not (isinstance(st, ast.AnnAssign) and isinstance(st.target, ast.Name) and st.value is not None):
+            is_names = lambda tg: isinstance(tg, ast.Name) or (isinstance(tg, ast.Tuple) and tg.elts and all(isinstance(x, ast.Name) for x in tg.elts))  # noqa: E731
+            if not (isinstance(st, ast.Assign) and len(st.targets) == 1 and is_names(st.targets[0])) and not (isinstance(st, ast.AnnAssign) and isinstance(st.target, ast.Name) and st.value is not None):
                 # ... or a helper whose only other statement is a collector loop (`out = ""` / `for …: out += f"…"` / `return out`):
                 # one path, no test, the loop read as the comprehension it equals
                 if static is None and isinstance(st, ast.For) and _depth[0] <= 2 and not any(x[0] == "star" for x in args) and not kw:
@@ -320,7 +321,11 @@ class Evaluator:
         try:
             for st in body[:-1]:
                 tg = st.targets[0] if isinstance(st, ast.Assign) else st.target
-                env[tg.id] = callee.expr(st.value, env)
+                if isinstance(tg, ast.Tuple):
+                    # `a, b = x, y`: the right-hand side is evaluated first, then unpacked
+                    callee.bind_target(tg, callee.expr(st.value, env), env)
+                else:
+                    env[tg.id] = callee.expr(st.value, env)
             return callee.expr(body[-1].value, env)
         finally:
             _depth[0] -= 1
@@ -593,6 +598,14 @@ class PathEnumerator:
         def scan(stmts, conds) -> bool:
             for i, b in enumerate(stmts):
                 if isinstance(b, ast.Expr) and isinstance(b.value, ast.Constant):
+                    continue
+                if (not conds and isinstance(b, ast.If) and not b.orelse and len(b.body) == 1 and isinstance(b.body[0], ast.Assign) and len(b.body[0].targets) == 1
+                        and isinstance(b.body[0].targets[0], ast.Name) and b.body[0].targets[0].id in env2 and container(b.body[0].targets[0].id) is None
+                        and b.body[0].targets[0].id not in aliases
+                        and not any(isinstance(n, (ast.Yield, ast.YieldFrom, ast.Await, ast.NamedExpr)) for n in ast.walk(b))):  # fmt: skip
+                    # `if C: x = f(x)` (nothing else in the branch): from here on x is `f(x) if C else x`
+                    nm = b.body[0].targets[0].id
+                    env2[nm] = ("ifexp", ev.expr(b.test, env2), ev.expr(b.body[0].value, env2), env2[nm])
                     continue
                 if isinstance(b, ast.If):
                     body = list(b.body)
